@@ -22,12 +22,17 @@ def appendix_b(n, w):
 
 
 class bind_assoc:
-    """Temporarily bind trait associated consts (e.g. H::OUTPUT_SIZE) to singletons."""
+    """Temporarily bind trait associated consts (e.g. H::OUTPUT_SIZE) to singletons; keys that are
+    (adt, field) tuples bind field value sets instead (finite trace partitioning by parameter row)."""
 
     def __init__(self, an, binding):
-        self.an, self.binding = an, binding
+        self.an = an
+        self.binding = {k: v for k, v in binding.items() if isinstance(k, str)}
+        self.fields = {k: v for k, v in binding.items() if isinstance(k, tuple)}
 
     def __enter__(self):
+        self.saved_fields = dict(self.an.field_sets)
+        self.an.field_sets.update(self.fields)
         self.saved = dict(self.an.assoc)
         self.saved_memo = self.an.memo
         self.saved_cc = self.an.ctx_count
@@ -39,6 +44,7 @@ class bind_assoc:
         return self.an
 
     def __exit__(self, *a):
+        self.an.field_sets = self.saved_fields
         self.an.assoc = self.saved
         self.an.memo = self.saved_memo
         self.an.ctx_count = self.saved_cc
